@@ -1,7 +1,7 @@
 //! Session Listener
 
 
-use std::collections::HashMap;
+use std::collections::{HashMap, VecDeque};
 use std::sync::{Arc, OnceLock};
 
 use fe2o3_amqp_types::{
@@ -305,6 +305,8 @@ impl SessionAcceptor {
             session,
             link_listener: link_listener_tx,
             pending_link_flows: HashMap::new(),
+            pending_incoming_attaches: HashMap::new(),
+            pending_link_detaches: HashMap::new(),
         };
 
         let (engine_handle, outcome) = self
@@ -391,6 +393,13 @@ pub struct ListenerSession {
     /// Keyed by the remote's handle (InputHandle). These are replayed when
     /// `allocate_incoming_link` inserts the relay into `link_by_input_handle`.
     pub(crate) pending_link_flows: HashMap<InputHandle, Vec<LinkFlow>>,
+    /// Number of remote attaches per handle that were handed to the application's accept
+    /// queue and have not been registered by `allocate_incoming_link` yet.
+    pub(crate) pending_incoming_attaches: HashMap<InputHandle, usize>,
+    /// Detach frames that arrived for such a handle (the remote detached the link without
+    /// waiting for the answer to its attach). Each is handed to the link endpoint when the
+    /// application accepts the attach it belongs to.
+    pub(crate) pending_link_detaches: HashMap<InputHandle, VecDeque<Detach>>,
 }
 
 impl endpoint::Session for ListenerSession {
@@ -469,6 +478,36 @@ impl endpoint::Session for ListenerSession {
             }
         }
 
+        // The remote may also have detached the link already, without waiting for the answer
+        // to its attach: the link endpoint that is being created learns of it as of any detach
+        // and answers it with its next operation.
+        if let Some(count) = self.pending_incoming_attaches.get_mut(&input_handle) {
+            *count = count.saturating_sub(1);
+            if *count == 0 {
+                self.pending_incoming_attaches.remove(&input_handle);
+            }
+        }
+        let pending_detach = match self.pending_link_detaches.get_mut(&input_handle) {
+            Some(queue) => {
+                let detach = queue.pop_front();
+                if queue.is_empty() {
+                    self.pending_link_detaches.remove(&input_handle);
+                }
+                detach
+            }
+            None => None,
+        };
+        if let Some(detach) = pending_detach {
+            if let Some(mut link_relay) = self.session.link_by_input_handle.remove(&input_handle) {
+                if let Err(_error) = link_relay.try_on_incoming_detach(detach) {
+                    #[cfg(feature = "tracing")]
+                    tracing::error!(error = ?_error);
+                    #[cfg(feature = "log")]
+                    log::error!("error = {:?}", _error);
+                }
+            }
+        }
+
         Ok(output_handle)
     }
 
@@ -510,6 +549,10 @@ impl endpoint::Session for ListenerSession {
                     Ok(())
                 }
                 None => {
+                    *self
+                        .pending_incoming_attaches
+                        .entry(InputHandle::from(attach.handle.clone()))
+                        .or_insert(0) += 1;
                     self.link_listener.send(attach).await.map_err(|_| {
                         // SessionHandle must have been dropped, then treat it as if the acceptor doesn't exist
                         SessionInnerError::HandleInUse
@@ -523,6 +566,10 @@ impl endpoint::Session for ListenerSession {
                 // to an unused handle, and an attach frame is issued carrying
                 // the state of the newly created endpoint.
 
+                *self
+                    .pending_incoming_attaches
+                    .entry(InputHandle::from(attach.handle.clone()))
+                    .or_insert(0) += 1;
                 self.link_listener.send(attach).await.map_err(|_| {
                     // SessionHandle must have been dropped, then treat it as if the acceptor doesn't exist
                     SessionInnerError::UnattachedHandle
@@ -592,6 +639,29 @@ impl endpoint::Session for ListenerSession {
     }
 
     async fn on_incoming_detach(&mut self, detach: Detach) -> Result<(), Self::Error> {
+        // Same pipelining issue as on_incoming_flow: the remote may detach a link whose attach
+        // is still waiting for the application to accept it. Such a detach is not one for an
+        // unattached handle; it is kept for the link endpoint that the accept will create.
+        let input_handle = InputHandle::from(detach.handle.clone());
+        if !self.session.link_by_input_handle.contains_key(&input_handle) {
+            let waiting = self
+                .pending_incoming_attaches
+                .get(&input_handle)
+                .copied()
+                .unwrap_or(0);
+            let kept = self
+                .pending_link_detaches
+                .get(&input_handle)
+                .map(|queue| queue.len())
+                .unwrap_or(0);
+            if waiting > kept {
+                self.pending_link_detaches
+                    .entry(input_handle)
+                    .or_default()
+                    .push_back(detach);
+                return Ok(());
+            }
+        }
         self.session.on_incoming_detach(detach).await
     }
 
